@@ -75,6 +75,7 @@ def run(chk, F):
     chk.guard("factor-exact", "eval_unit_name", lambda: factor_exact(chk, F))
     chk.guard("decompose", "fast_decompose", lambda: decompose(chk, F))
     chk.guard("merge-closures", "btree_merge callers", lambda: merges(chk, F))
+    chk.guard("factor-never-dropped", "NumberPartsFmt::to_spans", lambda: factor_shown(chk, F))
 
 
 def prettify_data(chk, F):
@@ -303,3 +304,36 @@ def sum_dropping_zero(c):
     nz = any(d[0] == "bool" and d[2] is True and d[1][0][0] == "binop" and d[1][0][1] == "Ne" and ("Add" in ap_str(d[1])) and
              (d[1][0][3][0] == ("const", 0) or d[1][0][2][0] == ("const", 0)) for d in gs)
     return (is_sum and nz), s
+
+
+def factor_shown(chk, F):
+    """In the `u` pattern, whenever the conversion constant is present (factor / divfactor) it is printed: no skip of the
+    unit section while a factor exists, and both parts are pushed in the branch Context::show feeds (raw_unit)."""
+    fns = [f for f in F.by_crate[CORE] if f.path == "output::number_parts::NumberPartsFmt::<'a>::to_spans" and f.raw["kind"] != "Closure"]
+    if len(fns) != 1:
+        raise AnchorLost("NumberPartsFmt::to_spans not found (%d)" % len(fns))
+    fn = fns[0]
+    fk = "rink_core::output::number_parts::NumberPartsFmt::to_spans"
+    h = F.hir_of(fn)
+    arm = None
+    for m in hir_walk(h["body"]):
+        if m.get("k") == "Match":
+            for a in m["arms"]:
+                if a["pat"]["pk"] == "expr" and a["pat"]["e"].get("v") == "u":
+                    arm = a
+    if arm is None:
+        raise AnchorLost("no arm for the `u` pattern character")
+    first = [n for n in hir_walk(arm["body"]) if n.get("k") == "If" and n["cond"].get("k") == "Let" and H.expr_str(n["cond"]["init"]) == "parts.raw_unit"]
+    if not first:
+        raise AnchorLost("`u` arm does not start with `if let Some(unit) = parts.raw_unit`")
+    then = first[0]["then"]
+    conts = []
+    for n in hir_walk(then):
+        if n.get("k") == "If" and [c for c in hir_walk(n["then"]) if c.get("k") == "Continue"]:
+            conts.append(H.expr_str(n["cond"], 300))
+    ok = bool(conts) and all("parts.factor.is_none()" in c and "parts.divfactor.is_none()" in c for c in conts)
+    chk.decide(ok, "factor-never-dropped", fk, "skip-only-without-factor", "%s:%d" % (fn.file, first[0]["line"]),
+               "the unit section is skipped only when there is neither a factor nor a divfactor", "the `u` pattern skips its output under `%s` although a conversion factor may be present: numeral x factor no longer equals the value" % conts)
+    txt = "\n".join(hirpp.tree(then))
+    okf = "if let Option::Some(f) = parts.factor" in txt and "if let Option::Some(d) = parts.divfactor" in txt
+    chk.decide(okf, "factor-never-dropped", fk, "both-parts-printed", "%s:%d" % (fn.file, first[0]["line"]), "factor and divfactor are both printed when present", "factor/divfactor are not both printed in the raw_unit branch")
